@@ -13,6 +13,11 @@ def judge(ck, c, r, I, M, S, sup):
 
 
 def run(tier, seed, replay=None):
-    return CC.run('C08', tier, seed, replay, PROPS, judge,
+    def extra(ck, cases):
+        if replay is None or replay.get('case', {}).get('obs') == 'named':
+            CC.named_stream(ck, 'contain')
+        if replay is not None and replay.get('case', {}).get('obs') == 'named':
+            cases.clear()
+    return CC.run('C08', tier, seed, replay, PROPS, judge, extra_streams=extra,
                   rule_extra='; zoo: every public name of typing / collections.abc, bare and subscripted, non-types, strings, TypeVars, '
                              'NamedTuple/TypedDict/Protocol ... x 78 values (namedtuples, objects with raising _asdict, generators, classes, modules)')
